@@ -103,6 +103,21 @@ theorem c14_produce (P : Prims) (E : Env) (K : KeyEnv) (ks : List Key) (headers 
     refine ⟨k0, List.mem_of_getElem? hk0, hk', rfl, ?_⟩
     intro hnull; simp [hnull, JVal.isNone] at hnn
 
+/-- A key argument given through a callable is resolved exactly as what the callable returns would be if it were given
+directly - on the consuming (`use_random = false`) and on the producing side (`use_random = true`: the flag is not lost on
+the way through the callable). -/
+theorem c14_callable_transparent (P : Prims) (E : Env) (K : KeyEnv) (f : JVal → KeyBase) (headers : JVal) (useRandom : Bool) :
+    guessKey P E K (.callable f) headers useRandom = guessKey P E K (.base (f headers)) headers useRandom := rfl
+
+/-- **Production without kid, key set behind a callable**: the same selection rule as for a set given directly. -/
+theorem c14_produce_callable (P : Prims) (E : Env) (K : KeyEnv) (ks : List Key) (headers : JVal) (alg : String)
+    (k : Key) (kid : JVal) (f : JVal → KeyBase) (hf : f headers = .set ks)
+    (hnokid : pyGet headers "kid" = .ok .null) (halg : pyGetItemStr headers "alg" = .ok (.str alg))
+    (h : guessKey P E K (.callable f) headers true = .ok (k, some kid)) :
+    ∃ k0 ∈ pickCandidates E.algKeys ks alg, ensureKid P K k0 = .ok k ∧ k.kid = kid ∧ kid ≠ .null := by
+  rw [c14_callable_transparent, hf] at h
+  exact c14_produce P E K ks headers alg k kid hnokid halg h
+
 /-- The candidates handed to `random.choice` all have a key type the algorithm requires. -/
 theorem c14_candidates_typed (algKeys : List (String × List String)) (ks : List Key) (alg : String) (kts : List String)
     (hfind : algKeys.find? (·.1 == alg) = some (alg, kts)) (hne : kts ≠ []) :
